@@ -769,6 +769,82 @@ func offsetClosed(c *hc.Ctx) {
 // ---------------------------------------------------------------------------------------------
 // 6. curved inputs: Go-side oracle with an independent fine flattening of the input
 
+// bezierBound: the library flattens a cubic Bezier and its offsets within 4 tolerances (path_util.go
+// cubicBezierDeviation, /repo f410714 + 07f2911: "steps and flat ranges are halved until that bound is within
+// 4*tolerance"; the pinned TestCubicBezierStrokeFlatten forbids a tighter bound). Inputs with Bezier
+// segments are therefore judged with 4*tol instead of 1*tol.
+const bezierBound = 4.0
+
+func hasBezier(P *canvas.Path) bool {
+	segs, err := hc.Decode(P.Data())
+	if err != nil {
+		return false
+	}
+	for _, s := range segs {
+		if s.Kind == 'Q' || s.Kind == 'C' {
+			return true
+		}
+	}
+	return false
+}
+
+// offsetIrregular: the parallel curve of some Bezier segment at one of the signed distances ds (positive =
+// right-hand side) is not regular: 1 + d*kappa <= 0.05 somewhere (|d| reaches the radius of curvature on
+// the inner side: swallowtail), or the speed (nearly) vanishes (cusp, near-cusp, reversal of a
+// near-collinear control polygon). There the library's 4*tol bound does not hold (residue class of
+// C04-cubic-offset-exceeds-tolerance).
+func offsetIrregular(P *canvas.Path, ds ...float64) bool {
+	segs, err := hc.Decode(P.Data())
+	if err != nil {
+		return false
+	}
+	for _, s := range segs {
+		var p0, p1, p2, p3 hc.P2
+		switch s.Kind {
+		case 'C':
+			p0, p1, p2, p3 = s.P0, s.P1, s.P2, s.End
+		case 'Q':
+			p0, p3 = s.P0, s.End
+			p1 = p0.Add(s.P1.Sub(p0).Mul(2.0 / 3))
+			p2 = p3.Add(s.P1.Sub(p3).Mul(2.0 / 3))
+		default:
+			continue
+		}
+		a := p1.Sub(p0).Mul(3)
+		b := p2.Sub(p1).Mul(3)
+		cc := p3.Sub(p2).Mul(3)
+		maxSpeed, minSpeed := 0.0, math.Inf(1)
+		type sk struct{ speed, kappa float64 }
+		var sm []sk
+		const n = 2000
+		for i := 0; i <= n; i++ {
+			t := float64(i) / n
+			u := 1 - t
+			d1 := a.Mul(u * u).Add(b.Mul(2 * u * t)).Add(cc.Mul(t * t))
+			d2 := b.Sub(a).Mul(2 * u).Add(cc.Sub(b).Mul(2 * t))
+			sp := d1.Len()
+			maxSpeed, minSpeed = math.Max(maxSpeed, sp), math.Min(minSpeed, sp)
+			k := 0.0
+			if sp > 0 {
+				k = d1.Cross(d2) / (sp * sp * sp)
+			}
+			sm = append(sm, sk{sp, k})
+		}
+		if maxSpeed == 0 || minSpeed < 1e-3*maxSpeed {
+			return true
+		}
+		for _, x := range sm {
+			for _, d := range ds {
+				// right-hand offset by d of a curve turning left (kappa > 0) stretches by 1 + d*kappa
+				if 1+d*x.kappa <= 0.05 {
+					return true
+				}
+			}
+		}
+	}
+	return false
+}
+
 // genTeardrop: a closed subpath of exactly ONE segment - a cubic that returns to its start point - with
 // the corner angle at that point varied (half opening angle beta 8..82 degrees: turn 164..16 degrees),
 // both orientations, rotated and translated. offset() joins the segment with itself at that vertex.
@@ -845,7 +921,15 @@ func regionCurved(c *hc.Ctx) {
 	for it := 0; it < n; it++ {
 		var P *canvas.Path
 		class := ""
-		switch c.Intn(8) {
+		switch c.Intn(9) {
+		case 8: // near-collinear control polygon with a turning point (hairpin): the parallel curve needs a
+			// half circle of radius w/2 at the reversal
+			l := float64(4 + c.Intn(6))
+			e := []float64{0, 1e-6, 1e-3, 0.02, 0.1}[c.Intn(5)]
+			P = &canvas.Path{}
+			P.MoveTo(0, 0)
+			P.CubeTo(l, e, -l/2, -e, l/3+float64(c.Intn(3)), e*float64(c.Intn(3)-1))
+			class = "hairpin-cubic"
 		case 6, 7:
 			P, class = genTeardrop(c)
 		case 0:
@@ -879,6 +963,11 @@ func regionCurved(c *hc.Ctx) {
 		w := []float64{0.25, 0.5, 1, 1.5}[c.Intn(4)]
 		hw := w / 2
 		st := genStyle(c, it)
+		if it < 8 {
+			// always present: clipping arcs joins on one-segment cubic loops (regression class of /repo ad938b1)
+			P, class = genTeardrop(c)
+			st = strokeStyle{c.Intn(3), 5, []float64{1.001, 1.5, 2, 4}[it%4]}
+		}
 		tol := hw / 50
 		c.Evals++
 		var R, Rf *canvas.Path
@@ -949,8 +1038,14 @@ func regionCurved(c *hc.Ctx) {
 			continue
 		}
 		band := tol + 2*maxChordErr + snapMargin // one tolerance: the library flattens the outline once (since d60d0c1, f749928)
+		if hasBezier(P) {
+			band = bezierBound*tol + 2*maxChordErr + snapMargin
+		}
 		lo, hi := hw-band, hw+band
 		suffix := ""
+		if offsetIrregular(P, hw, -hw) {
+			suffix += "+swallowtail"
+		}
 		if segs, err := hc.Decode(P.Data()); err == nil {
 			for _, s := range segs {
 				if s.Kind == 'A' && math.Abs(s.Rx-s.Ry) > 1e-9 {
@@ -1186,6 +1281,9 @@ func offsetCurved(c *hc.Ctx) {
 		}
 		pls := []polyline{{pts: v, closed: true}}
 		band := tol + 2*chordErr + snapMargin // one tolerance: the library flattens the outline once (since d60d0c1, f749928)
+		if hasBezier(P) {
+			band = bezierBound*tol + 2*chordErr + snapMargin
+		}
 		lo, hi := ad-band, ad+band
 		start := hc.P2{X: P.Data()[1], Y: P.Data()[2]}
 		pts := probePoints(c, pls, res, ad, band, 36, strokeStyle{1, 1, 4})
@@ -1195,8 +1293,11 @@ func offsetCurved(c *hc.Ctx) {
 			gs = "grow"
 		}
 		suffix := ""
+		if offsetIrregular(P, d) {
+			suffix += "+swallowtail"
+		}
 		if !grow && ad > 0.9*inradiusEstimate(v) {
-			suffix = "+beyond-inradius"
+			suffix += "+beyond-inradius"
 		}
 		cs := [][]hc.P2{v}
 		for _, pt := range pts {
